@@ -503,7 +503,8 @@ _scn_alloc = dict(_scn, harness="harness/scn_alloc.c", flags=_scn["flags"] + ["-
 # (handler, number of allocation attempts of the fault-free request: measured with the native build, asserted by
 #  C15.failure_injected_as_planned in every obligation)
 _STEPS = [(0, "add", 11), (1, "fetch", 27), (2, "change", 25), (3, "remove", 23), (4, "unfetch", 6), (5, "set", 16), (6, "get", 14), (7, "config", 7), (8, "info", 24),
-          (9, "fetch_grow", 28)]     # the third subscription to an element: its subscription table (initially 2 slots) has to grow
+          (9, "fetch_grow", 28),     # the third subscription to an element: its subscription table (initially 2 slots) has to grow
+          (10, "reply", 7)]          # the owner's reply to a routed request: the relayed answer for the caller is built under allocation failure
 for _s, _nm, _n in _STEPS:
     for _k in range(_n + 1 + 3):      # 3 spare attempts: a tree whose request allocates a little more is still covered attempt by attempt
         O(id="C15.alloc_failure_%s_k%02d" % (_nm, _k), props=["C15", "C06", "C07"], entry="harness_alloc_failure",
